@@ -168,10 +168,15 @@ func (h *hist) fabricate(members []int, thr int, epoch uint32) {
 		Nodes: nodes, GenesisTime: gen.Unix(), TransitionTime: gen.Unix(), PublicKey: &key.DistPublic{Coefficients: commits}}
 	grp.GenesisSeed = grp.Hash()
 	parts := h.parts(members)
+	// the timeout of the completed proposal: often still in the future shortly after completion
+	timeout := time.Now().Add(-time.Hour).UTC()
+	if h.rng.Intn(2) == 0 {
+		timeout = time.Now().Add(farFuture).UTC()
+	}
 	for k, i := range members {
 		sh := &key.Share{DistKeyShare: kdkg.DistKeyShare{Commits: commits, Share: poly.Eval(k)}, Scheme: w.sch}
 		st := &dkg.DBState{BeaconID: beaconID, Epoch: epoch, State: dkg.Complete, Threshold: uint32(thr),
-			Timeout: time.Now().Add(-time.Hour).UTC(), SchemeID: w.sch.Name, GenesisTime: gen, GenesisSeed: grp.GenesisSeed,
+			Timeout: timeout, SchemeID: w.sch.Name, GenesisTime: gen, GenesisSeed: grp.GenesisSeed,
 			CatchupPeriod: 5 * time.Second, BeaconPeriod: 30 * time.Second, Leader: parts[0],
 			FinalGroup: grp, KeyShare: sh}
 		if epoch == 1 {
